@@ -40,6 +40,47 @@ type Case struct {
 	Cached   bool
 	Children []Child
 	Ops      []Op
+	// Groups (optional): sizes of consecutive groups of Children. A group of size 1 is given to the
+	// multi reporter as the child itself; a negative size -k or a size >= 2 or 0 means that the k
+	// children of the group are first combined into a NESTED multi reporter of the same flavour
+	// (possibly with no or one child), which is then one argument of the outer one. Every leaf must
+	// still get each call exactly once, in the flat order, and the capabilities are the conjunction
+	// over all leaves.
+	Groups []int `json:",omitempty"`
+}
+
+// grouping returns, per argument of the outer reporter, the indices of the leaves behind it and
+// whether they are wrapped in a nested multi reporter.
+func (c Case) grouping() (groups [][]int, nested []bool) {
+	if len(c.Groups) == 0 {
+		for i := range c.Children {
+			groups, nested = append(groups, []int{i}), append(nested, false)
+		}
+		return
+	}
+	at := 0
+	for _, g := range c.Groups {
+		k, wrap := g, g != 1
+		if g < 0 {
+			k = -g
+		}
+		if at+k > len(c.Children) {
+			k = len(c.Children) - at
+		}
+		var idx []int
+		for i := 0; i < k; i++ {
+			idx = append(idx, at+i)
+		}
+		at += k
+		if !wrap && len(idx) != 1 {
+			wrap = true
+		}
+		groups, nested = append(groups, idx), append(nested, wrap)
+	}
+	for ; at < len(c.Children); at++ {
+		groups, nested = append(groups, []int{at}), append(nested, false)
+	}
+	return
 }
 
 func gen(t *rapid.T) Case {
@@ -47,6 +88,19 @@ func gen(t *rapid.T) Case {
 	n := rapid.SampledFrom([]int{0, 1, 2, 2, 3, 3, 4, 5}).Draw(t, "nchildren")
 	for i := 0; i < n; i++ {
 		c.Children = append(c.Children, Child{rapid.Bool().Draw(t, "rep"), rapid.Bool().Draw(t, "tag")})
+	}
+	if rapid.IntRange(0, 2).Draw(t, "nested?") == 0 {
+		for left := n; left > 0; {
+			g := rapid.SampledFrom([]int{0, 1, -1, 2, 2, 3}).Draw(t, "group")
+			c.Groups = append(c.Groups, g)
+			if g < 0 {
+				g = -g
+			}
+			left -= g
+		}
+		if rapid.Bool().Draw(t, "trailingEmpty") {
+			c.Groups = append(c.Groups, 0)
+		}
 	}
 	kinds := []string{"counter", "gauge", "timer", "hvalue", "hduration", "flush", "caps"}
 	if c.Cached {
@@ -182,8 +236,17 @@ func run(c Case) (pbt.Outcome, error) {
 
 	if !c.Cached {
 		var children []tally.StatsReporter
-		for i, ch := range c.Children {
-			children = append(children, &rec.Stats{L: log, Child: i, Caps: rec.Caps(ch.Reporting, ch.Tagging)})
+		groups, nested := c.grouping()
+		for gi, idx := range groups {
+			var leaves []tally.StatsReporter
+			for _, i := range idx {
+				leaves = append(leaves, &rec.Stats{L: log, Child: i, Caps: rec.Caps(c.Children[i].Reporting, c.Children[i].Tagging)})
+			}
+			if nested[gi] {
+				children = append(children, multi.NewMultiReporter(leaves...))
+			} else {
+				children = append(children, leaves...)
+			}
 		}
 		m := multi.NewMultiReporter(children...)
 		for _, op := range c.Ops {
@@ -218,8 +281,17 @@ func run(c Case) (pbt.Outcome, error) {
 		checkCaps(m.Capabilities())
 	} else {
 		var children []tally.CachedStatsReporter
-		for i, ch := range c.Children {
-			children = append(children, &rec.Cached{L: log, Child: i, Caps: rec.Caps(ch.Reporting, ch.Tagging)})
+		groups, nested := c.grouping()
+		for gi, idx := range groups {
+			var leaves []tally.CachedStatsReporter
+			for _, i := range idx {
+				leaves = append(leaves, &rec.Cached{L: log, Child: i, Caps: rec.Caps(c.Children[i].Reporting, c.Children[i].Tagging)})
+			}
+			if nested[gi] {
+				children = append(children, multi.NewMultiCachedReporter(leaves...))
+			} else {
+				children = append(children, leaves...)
+			}
 		}
 		m := multi.NewMultiCachedReporter(children...)
 		var hs []mhandle
@@ -332,6 +404,9 @@ func run(c Case) (pbt.Outcome, error) {
 	}
 	if bucketCalls > 0 {
 		out.Classes = append(out.Classes, "has-bucket-call")
+	}
+	if len(c.Groups) > 0 {
+		out.Classes = append(out.Classes, "nested-multi-reporters")
 	}
 	return out, errs.Err()
 }
